@@ -19,6 +19,7 @@ import shutil
 
 from mc import seams
 from mc.runner import Part, Res
+from props import secdom
 
 PROPERTY = "C12"
 LEVEL = "exploration"
@@ -317,7 +318,7 @@ PLAIN_FILES = {
     "non-ascii": "description Stra\u00dfe \u00fcber caf\u00e9 \u4e2d\u6587 \U0001F600\n",
     "trailing-blanks": "hostname a   \n\tinterface b\t\n end \t \n",
     "inner-runs": "interface   Ethernet1     description  x\ty\t\tz\n",
-    "long-line": "description " + "word " * 3000 + "end\n",
+    "long-line": "description " + "word " * 1200 + "end\n",
     "empty": "",
     # lines that consist of enclosing / terminator characters only (delimiter lines of quoted blocks, JSON)
     "lone-enclosing-characters": "".join(l + "\n" for l in [
@@ -457,5 +458,57 @@ class PlainFilesPart(Part):
         return res
 
 
+class RepeatedText(Part):
+    name = "secret_text_repeated_elsewhere_on_the_line"
+    desc = "every catalogue form with its free-text slots (user, host, key id ...) filled with the very text of the secret: only the secret's position changes"
+
+    def __init__(self, tier, seed):
+        self.tier, self.seed = tier, seed
+
+    def cases(self):
+        cat = secdom.catalogue()
+        # groups with several patterns (cipher + authenticator, auth + priv) treat more than one slot as secret
+        multi = {f["group"] for f in cat if (f.get("regex_index") or 0) > 0}
+        forms = [f for f in cat if not f["scrub"] and f["slots"] == 1 and "{S}" in f["template"]
+                 and f["group"] not in multi
+                 and (" w " in " " + f["template"] + " " or " w; " in " " + f["template"] + " ")]
+        return [{"form": f["id"]} for f in forms]
+
+    def run(self, case):
+        res = Res()
+        f = [x for x in secdom.catalogue() if x["id"] == case["form"]][0]
+        lines, meta = [], []
+        for sec in ("netops7", "tac01", "Lab4x", "5f"):
+            if "only" in case and case["only"][0] != sec:
+                continue
+            marked = secdom.fill(f["template"], ["\x00"], words=[sec] * 6).split()
+            idx = [i for i, t in enumerate(marked) if "\x00" in t][0]
+            pre, post = marked[idx].split("\x00")
+            lines.append(secdom.fill(f["template"], [sec], words=[sec] * 6))
+            meta.append((sec, pre, post, idx))
+            # ... and once more after the statement
+            lines.append(secdom.fill(f["template"], [sec], words=[sec] * 6) + " ! " + sec)
+            meta.append((sec, pre, post, idx))
+        got, _ = secdom.run_lines_isolated(lines, "saltForTest")
+        for ln, g, (sec, pre, post, idx) in zip(lines, got, meta):
+            res.evals += 1
+            rc = {"form": f["id"], "only": [sec]}
+            if isinstance(g, tuple):
+                res.violation("exception:%s|repeated-text" % g[1], "line %r raised %r" % (ln, g), rc)
+                continue
+            it, ot = ln.split(), g.split()
+            res.out(g != ln)
+            if g != ln:
+                res.nt((f["id"], sec, ln))
+            # (whether the secret itself is replaced is C07's subject; here: nothing else changes)
+            bad = [j for j in range(min(len(it), len(ot))) if j != idx and it[j] != ot[j]]
+            if len(it) != len(ot) or bad:
+                res.violation("non-sensitive-token-changed|%s|repeated-text" % f["id"],
+                              "line %r -> %r (token %s; only token %d is the secret)" % (ln, g, bad[:1] or "count", idx), rc)
+        if "only" not in case:
+            res.samples.append({"form": f["template"], "example": lines[0]})
+        return res
+
+
 def parts(tier, seed):
-    return [TextsPart(tier, seed), PlainFilesPart(tier, seed)]
+    return [TextsPart(tier, seed), PlainFilesPart(tier, seed), RepeatedText(tier, seed)]
